@@ -9,11 +9,163 @@
 //!
 //! `vsem c02-keys` prints every configuration key known to `ConfigOptions::entries()`.
 use crate::semutil::*;
+use arrow::record_batch::RecordBatch;
 use datafusion::common::config::ConfigOptions;
-use datafusion::prelude::SessionContext;
+use datafusion::datasource::MemTable;
+use datafusion::physical_plan::{ExecutionPlan, collect};
+use datafusion::prelude::*;
 use serde_json::{Value, json};
-use vcommon::sqlexec::{ExecOpts, batches_to_rows};
+use std::sync::Arc;
+use std::sync::atomic::{AtomicUsize, Ordering};
+use vcommon::sqlexec::{ExecOpts, batches_to_rows, session, table_partitions};
 use vcommon::util;
+
+static DIR_SEQ: AtomicUsize = AtomicUsize::new(0);
+
+/// The tables of one case under one configuration: MemTables (re-filled per database) or listing tables over
+/// Parquet / CSV files written to the work directory (one file per layout partition; re-written and re-registered
+/// per database), optionally sorted on the first column with the order declared to the engine.
+struct Source {
+    ctx: SessionContext,
+    opts: ExecOpts,
+    kind: String,
+    sorted: bool,
+    mem: Option<CaseDb>,
+    root: std::path::PathBuf,
+}
+
+fn sort_rows_on_first(rows: &mut Vec<Value>) {
+    // ASC NULLS LAST on column 1 (values are small integers / pool indices in pool order / booleans)
+    rows.sort_by_key(|r| if r[0]["k"] == "n" { (1, 0) } else { (0, r[0]["v"].as_i64().unwrap()) });
+}
+
+fn table_value(desc: &Value, rows: &Value, sorted: bool) -> Value {
+    let mut rs: Vec<Value> = rows.as_array().unwrap().clone();
+    if sorted {
+        sort_rows_on_first(&mut rs);
+    }
+    json!({"name": desc["name"], "cols": desc["cols"], "rows": rs})
+}
+
+/// contiguous chunks (not round-robin) so that a sorted table stays sorted inside every partition / file
+fn chunked(t: &Value, opts: &ExecOpts) -> (arrow::datatypes::SchemaRef, Vec<Vec<RecordBatch>>) {
+    let np = opts.partitions.max(1);
+    let rows = t["rows"].as_array().unwrap();
+    let per = rows.len().div_ceil(np).max(1);
+    let mut out = vec![];
+    let mut schema = None;
+    for p in 0..np {
+        let lo = (p * per).min(rows.len());
+        let hi = ((p + 1) * per).min(rows.len());
+        let part = json!({"name": t["name"], "cols": t["cols"], "rows": rows[lo..hi].to_vec()});
+        let (sc, mut parts) = table_partitions(&part, &ExecOpts { partitions: 1, ..opts.clone() });
+        schema = Some(sc);
+        out.push(parts.remove(0));
+    }
+    (schema.unwrap(), out)
+}
+
+impl Source {
+    async fn open(case: &Value, c: &Value) -> Result<Source, String> {
+        let opts = cfg_opts(c);
+        let kind = c["source"].as_str().unwrap_or("mem").to_string();
+        let sorted = c["sorted"].as_bool().unwrap_or(false);
+        let root = std::path::PathBuf::from(format!("files/{}-{}", std::process::id(), DIR_SEQ.fetch_add(1, Ordering::SeqCst)));
+        if kind == "mem" && !sorted {
+            let cdb = open_case(case, &opts)?;
+            return Ok(Source { ctx: cdb.ctx.clone(), opts, kind, sorted, mem: Some(cdb), root });
+        }
+        let ctx = session(&opts)?;
+        Ok(Source { ctx, opts, kind, sorted, mem: None, root })
+    }
+
+    async fn load(&mut self, case: &Value, d: usize) -> Result<(), String> {
+        if let Some(cdb) = &self.mem {
+            load_db(cdb, case, d).await;
+            return Ok(());
+        }
+        let db = &case["dbs"][d];
+        for (ti, desc) in case["tables"].as_array().unwrap().iter().enumerate() {
+            let name = desc["name"].as_str().unwrap();
+            let t = table_value(desc, &db[ti], self.sorted);
+            let (schema, parts) = chunked(&t, &self.opts);
+            let order = vec![vec![col(desc["cols"][0]["name"].as_str().unwrap()).sort(true, false)]];
+            let _ = self.ctx.deregister_table(name);
+            if self.kind == "mem" {
+                let mut mt = MemTable::try_new(schema, parts).map_err(|e| e.to_string())?;
+                if self.sorted {
+                    mt = mt.with_sort_order(order);
+                }
+                self.ctx.register_table(name, Arc::new(mt)).map_err(|e| e.to_string())?;
+                continue;
+            }
+            let dir = self.root.join(format!("db{d}")).join(name);
+            std::fs::create_dir_all(&dir).map_err(|e| e.to_string())?;
+            for (pi, batches) in parts.iter().enumerate() {
+                if self.kind == "parquet" {
+                    let f = std::fs::File::create(dir.join(format!("part-{pi}.parquet"))).map_err(|e| e.to_string())?;
+                    let mut b = parquet::file::properties::WriterProperties::builder();
+                    if self.opts.batch_rows > 0 {
+                        b = b.set_max_row_group_row_count(Some(self.opts.batch_rows)).set_data_page_row_count_limit(1).set_write_batch_size(1);
+                    }
+                    let mut w = parquet::arrow::ArrowWriter::try_new(f, schema.clone(), Some(b.build())).map_err(|e| e.to_string())?;
+                    for rb in batches {
+                        w.write(rb).map_err(|e| e.to_string())?;
+                    }
+                    w.close().map_err(|e| e.to_string())?;
+                } else {
+                    let f = std::fs::File::create(dir.join(format!("part-{pi}.csv"))).map_err(|e| e.to_string())?;
+                    let mut w = arrow::csv::WriterBuilder::new().with_header(true).build(f);
+                    for rb in batches {
+                        w.write(rb).map_err(|e| e.to_string())?;
+                    }
+                }
+            }
+            let path = dir.to_str().unwrap().to_string();
+            if self.kind == "parquet" {
+                let mut o = ParquetReadOptions::default().schema(&schema);
+                if self.sorted {
+                    o = o.file_sort_order(order);
+                }
+                self.ctx.register_parquet(name, &path, o).await.map_err(|e| e.to_string())?;
+            } else {
+                let mut o = CsvReadOptions::new().schema(&schema).has_header(true);
+                if self.sorted {
+                    o = o.file_sort_order(order);
+                }
+                self.ctx.register_csv(name, &path, o).await.map_err(|e| e.to_string())?;
+            }
+        }
+        Ok(())
+    }
+}
+
+impl Drop for Source {
+    fn drop(&mut self) {
+        if self.mem.is_none() {
+            let _ = std::fs::remove_dir_all(&self.root);
+        }
+    }
+}
+
+fn op_names(p: &Arc<dyn ExecutionPlan>, out: &mut std::collections::BTreeSet<String>) {
+    let mut n = p.name().to_string();
+    if let Some(h) = p.downcast_ref::<datafusion::physical_plan::joins::HashJoinExec>() {
+        n = format!("HashJoinExec:{:?}", h.partition_mode());
+    }
+    if let Some(a) = p.downcast_ref::<datafusion::physical_plan::aggregates::AggregateExec>() {
+        n = format!("AggregateExec:{:?}", a.mode());
+    }
+    if let Some(x) = p.downcast_ref::<datafusion::physical_plan::sorts::sort::SortExec>() {
+        if x.fetch().is_some() {
+            n = "SortExec:TopK".into();
+        }
+    }
+    out.insert(n);
+    for c in p.children() {
+        op_names(c, out);
+    }
+}
 
 pub fn keys_main() {
     let entries: Vec<Value> = ConfigOptions::new()
@@ -51,13 +203,26 @@ async fn run_sql(ctx: &SessionContext, sql: &str) -> Value {
 }
 
 async fn run_sql_inner(ctx: &SessionContext, sql: &str) -> Value {
-    match ctx.sql(sql).await {
-        Err(e) => json!({"err": format!("plan: {e}")}),
-        Ok(df) => match df.collect().await {
-            Err(e) => json!({"err": format!("exec: {e}")}),
-            Ok(b) => json!({"rows": batches_to_rows(&b)}),
-        },
+    let df = match ctx.sql(sql).await {
+        Err(e) => return json!({"err": format!("plan: {e}")}),
+        Ok(df) => df,
+    };
+    let task = Arc::new(df.task_ctx());
+    let plan = match df.create_physical_plan().await {
+        Err(e) => return json!({"err": format!("plan: {e}")}),
+        Ok(p) => p,
+    };
+    let mut ops = std::collections::BTreeSet::new();
+    op_names(&plan, &mut ops);
+    match collect(plan, task).await {
+        Err(e) => json!({"err": format!("exec: {e}"), "ops": ops}),
+        Ok(b) => json!({"rows": batches_to_rows(&b), "ops": ops}),
     }
+}
+
+fn strip_ops(mut v: Value) -> (Value, Value) {
+    let ops = v.as_object_mut().and_then(|m| m.remove("ops")).unwrap_or(Value::Null);
+    (v, ops)
 }
 
 fn same_bag(a: &Value, b: &Value) -> bool {
@@ -81,8 +246,7 @@ async fn run_case(case: Value, max_dbs: usize) -> Value {
     let mut conc: Vec<Value> = vec![];
     let mut executions = 0usize;
     for c in case["cfgs"].as_array().unwrap() {
-        let opts = cfg_opts(c);
-        let cdb = match open_case(&case, &opts) {
+        let mut cdb = match Source::open(&case, c).await {
             Ok(x) => x,
             Err(e) => {
                 runs.push(json!({"cfg": c["id"], "setup_err": e}));
@@ -90,20 +254,25 @@ async fn run_case(case: Value, max_dbs: usize) -> Value {
             }
         };
         for d in 0..nd {
-            load_db(&cdb, &case, d).await;
-            let r1 = run_sql(&cdb.ctx, &sql).await;
-            let r2 = run_sql(&cdb.ctx, &sql).await;
+            if let Err(e) = cdb.load(&case, d).await {
+                runs.push(json!({"cfg": c["id"], "setup_err": format!("load: {e}")}));
+                break;
+            }
+            let (r1, ops) = strip_ops(run_sql(&cdb.ctx, &sql).await);
+            let (r2, _) = strip_ops(run_sql(&cdb.ctx, &sql).await);
             executions += 2;
             let identical = r1 == r2;
-            runs.push(if identical { json!({"cfg": c["id"], "db": d, "r1": r1, "r2_identical": true}) } else { json!({"cfg": c["id"], "db": d, "r1": r1, "r2": r2}) });
+            runs.push(if identical { json!({"cfg": c["id"], "db": d, "r1": r1, "r2_identical": true, "ops": ops}) } else { json!({"cfg": c["id"], "db": d, "r1": r1, "r2": r2, "ops": ops}) });
         }
         if c["concurrent"].as_bool().unwrap_or(false) {
-            load_db(&cdb, &case, 0).await;
+            if cdb.load(&case, 0).await.is_err() {
+                continue;
+            }
             let others: Vec<String> = case["others"].as_array().map(|a| a.iter().map(|s| s.as_str().unwrap().to_string()).collect()).unwrap_or_default();
             // sequential baselines of the other queries on this context
             let mut base = vec![];
             for o in &others {
-                base.push(run_sql(&cdb.ctx, o).await);
+                base.push(strip_ops(run_sql(&cdb.ctx, o).await).0);
                 executions += 1;
             }
             // interleaved: 3 copies of the case's query + 2 copies of every other query
@@ -126,7 +295,7 @@ async fn run_case(case: Value, max_dbs: usize) -> Value {
             for (h, (oi, _k)) in handles.into_iter().zip(tags) {
                 executions += 1;
                 let r = match h.await {
-                    Ok(v) => v,
+                    Ok(v) => strip_ops(v).0,
                     Err(e) => json!({"err": format!("PANIC: {e}"), "panic": true}),
                 };
                 if oi == usize::MAX {
